@@ -7,15 +7,19 @@ from .rat import INF, NINF, isinf
 F = Fraction
 KEYWORDS = {"min", "minimum", "minimize", "max", "maximum", "maximize", "subject", "st", "problem", "prob", "bounds", "bound",
             "integer", "int", "end", "free", "inf", "infinity", "to"}
-NAMECH = "abcdfghijklmnopqrstuvwxyzABCDFGHIJKLMNOPQRSTUVWXYZ"   # no e/E: reserved for exponents in LP files
+NAMECH = "abcdefghijklmnopqrstuvwxyzABCDEFGHIJKLMNOPQRSTUVWXYZ"
 
 
 def rnd_name(rnd, used, prefix="", special=False):
     while True:
-        n = prefix + rnd.choice(NAMECH) + "".join(rnd.choice(NAMECH + "0123456789_") for _ in range(rnd.randint(0, 7)))
+        n = prefix + rnd.choice(NAMECH) + "".join(rnd.choice(NAMECH + "eE0123456789_") for _ in range(rnd.randint(0, 7)))
+        if not prefix and rnd.random() < 0.06:
+            # legal names that merely *begin* like a keyword of the LP format
+            n = rnd.choice(["free", "FREE", "inf", "Inf", "infinity", "end", "st", "max", "min", "bound", "bounds", "int", "bin", "general", "subject"]) \
+                + rnd.choice(NAMECH + "0123456789_") + "".join(rnd.choice(NAMECH + "0123456789_") for _ in range(rnd.randint(0, 3)))
         if special and rnd.random() < 0.3:
             n += rnd.choice("!#$%&/;?@_`'{}|~") + rnd.choice("0123456789")
-        if n.lower() in KEYWORDS or n in used or n.lower().startswith(("inf", "free")):
+        if n.lower() in KEYWORDS or n in used or n.lower() in ("inf", "infinity", "free"):
             continue
         used.add(n)
         return n
